@@ -134,6 +134,13 @@ pub assume_specification[String::len](s: &String) -> (r: usize)
 pub assume_specification[String::as_bytes](s: &String) -> (r: &[u8])
     ensures r@ == string_bytes(*s);
 
+// ---- zeroize (the repository wipes temporaries; nothing is assumed about the wiped value)
+#[verifier::external_trait_specification]
+pub trait ExZeroize {
+    type ExternalTraitSpecificationFor: zeroize::Zeroize;
+    fn zeroize(&mut self);
+}
+
 // ---- N5: every panic site is an obligation
 #[verifier::external_body]
 pub fn vpanic() -> !
